@@ -45,6 +45,8 @@ pub(crate) struct HonestScenario<'a> {
     pub seed: u64,
     pub phase: Cell<usize>,
     pub explore_devs: bool,
+    /// every full node is this many blocks ahead of the last state it announced
+    pub ahead: u64,
     /// findings at the quiescent points between the phases (the tip has to be the heaviest
     /// announced one there, too, not only at the end of the history)
     pub interim: std::cell::RefCell<Vec<(String, String)>>,
@@ -57,6 +59,9 @@ impl<'a> Scenario for HonestScenario<'a> {
             world.add_peer(*id, *chain, *h);
         }
         world.filter_batch = 7;
+        for p in world.peers.iter_mut() {
+            p.ahead = self.ahead;
+        }
         crate::verif::client::set_now(crate::verif::world::BASE_TS + 1_000_000);
         let mut sim = match old {
             Some(old) => Sim::recycle(old, self.cfg.clone(), world),
@@ -239,6 +244,7 @@ pub(crate) struct Item {
     pub with_scripts: bool,
     pub seeds: Vec<u64>,
     pub bound: usize,
+    pub ahead: u64,
 }
 
 pub(crate) fn items(thorough: bool) -> Vec<Item> {
@@ -260,6 +266,7 @@ pub(crate) fn items(thorough: bool) -> Vec<Item> {
             with_scripts: false,
             seeds: seeds_small.clone(),
             bound: bound_small,
+            ahead: 0,
         });
     }
     // rising x2 per epoch, two peers at different heights, growth by 1 / 2 / many, scripts on
@@ -275,6 +282,7 @@ pub(crate) fn items(thorough: bool) -> Vec<Item> {
         with_scripts: true,
         seeds: vec![1],
         bound: bound_small,
+        ahead: 0,
     });
     v.push(Item {
         name: "zigzag30".into(),
@@ -288,6 +296,7 @@ pub(crate) fn items(thorough: bool) -> Vec<Item> {
         with_scripts: false,
         seeds: seeds_small.clone(),
         bound: bound_small,
+        ahead: 0,
     });
     v.push(Item {
         name: "falling40".into(),
@@ -301,6 +310,7 @@ pub(crate) fn items(thorough: bool) -> Vec<Item> {
         with_scripts: false,
         seeds: seeds_small.clone(),
         bound: 0,
+        ahead: 0,
     });
     v.push(Item {
         name: "x1.5-60".into(),
@@ -314,6 +324,7 @@ pub(crate) fn items(thorough: bool) -> Vec<Item> {
         with_scripts: false,
         seeds: seeds_small.clone(),
         bound: 0,
+        ahead: 0,
     });
     // plateau: 16, 32, 48, 64, 32 per epoch of 3 blocks; proven in epoch 0, next proof in epoch 4
     v.push(Item {
@@ -328,6 +339,7 @@ pub(crate) fn items(thorough: bool) -> Vec<Item> {
         with_scripts: false,
         seeds: vec![1, 2],
         bound: 0,
+        ahead: 0,
     });
     v.push(Item {
         name: "plateau-down-up".into(),
@@ -341,6 +353,7 @@ pub(crate) fn items(thorough: bool) -> Vec<Item> {
         with_scripts: false,
         seeds: vec![1, 2],
         bound: 0,
+        ahead: 0,
     });
     // growth by exactly N+1, N+2, 2N, 2N+1 blocks after a proof (few or single samples)
     for (name, steps) in [("gapN+1", vec![14u64, 18, 23]), ("gapN+2", vec![15u64, 20, 27]), ("gap2N", vec![16u64, 22, 29])] {
@@ -356,6 +369,7 @@ pub(crate) fn items(thorough: bool) -> Vec<Item> {
             with_scripts: false,
             seeds: if thorough { (1..=12).collect() } else { vec![1, 2, 3, 4] },
             bound: 0,
+            ahead: 0,
         });
     }
     // a fork shallower than last-N: both peers move to the heavier branch
@@ -371,6 +385,7 @@ pub(crate) fn items(thorough: bool) -> Vec<Item> {
         with_scripts: true,
         seeds: vec![1],
         bound: bound_small,
+        ahead: 0,
     });
     // two peers at different heights; the LOWER one grows block by block (the child shortcut of a
     // proven state) while the higher one stays: the stored tip must stay the higher peer's
@@ -387,8 +402,26 @@ pub(crate) fn items(thorough: bool) -> Vec<Item> {
             with_scripts: false,
             seeds: vec![1],
             bound: bound_small,
+            ahead: 0,
         });
     }
+    // the full node is three blocks ahead of the state it announced and answers the filter
+    // protocol from its own tip; those three blocks are then replaced by a heavier branch that
+    // still contains the proved header (no reorg headers, no fork within the stored last-N)
+    v.push(Item {
+        name: "node-ahead-then-reorg".into(),
+        chain_len: 23,
+        plan: plan(5, &[16, 24, 36, 24, 16]),
+        fork: Some((20, 26)),
+        peers: vec![(1, 0, 20)],
+        phases: vec![Phase::Move(1, 1, 26)],
+        last_n: n,
+        mmr_epoch: 0,
+        with_scripts: true,
+        seeds: vec![1],
+        bound: bound_small,
+        ahead: 3,
+    });
     // three peers, one lagging, quorum 2
     v.push(Item {
         name: "three-peers".into(),
@@ -402,6 +435,7 @@ pub(crate) fn items(thorough: bool) -> Vec<Item> {
         with_scripts: true,
         seeds: vec![1],
         bound: bound_small,
+        ahead: 0,
     });
     // long chains: default environment only
     v.push(Item {
@@ -416,6 +450,7 @@ pub(crate) fn items(thorough: bool) -> Vec<Item> {
         with_scripts: false,
         seeds: seeds_small.clone(),
         bound: 0,
+        ahead: 0,
     });
     if thorough {
         v.push(Item {
@@ -434,6 +469,7 @@ pub(crate) fn items(thorough: bool) -> Vec<Item> {
             with_scripts: false,
             seeds: vec![1, 2, 3],
             bound: 0,
+            ahead: 0,
         });
         v.push(Item {
             name: "rising-x2-short-epochs".into(),
@@ -447,6 +483,7 @@ pub(crate) fn items(thorough: bool) -> Vec<Item> {
             with_scripts: false,
             seeds: (1..=8).collect(),
             bound: 1,
+            ahead: 0,
         });
     }
     v
@@ -483,6 +520,7 @@ pub(crate) fn build_scenario<'a>(env: &'a Env, item: &Item, seed: u64) -> Honest
         seed,
         phase: Cell::new(0),
         explore_devs: item.bound > 0,
+        ahead: item.ahead,
         interim: Default::default(),
     }
 }
